@@ -11,7 +11,7 @@ on the real side and is ignored by the model; container specs: see Driver.lean):
 Answers:
   rt/un/off: `enc=<len>:<fnv32a> ok f=<flags> c=[key:type:n ...] v=<ranges> ops=<ops>,<opN> unmod=<b> twice=<b>`
   raw:       the same without `enc=`
-  imp:       `ok changed=<n> v=<ranges>` | `err:<class> v=<ranges of the unchanged target>`
+  imp:       `ok changed=<n> v=<ranges> rows=[row:delta ...]` (rowSet for rowSize 16) | `err:<class> v=<ranges of the unchanged target>`
 `#spec`: the abstract statement — same flags and set as the source, input unmodified, second decode
 equal; import = union / difference with the decoded set and changed = number of differing bits.
 -/
@@ -63,9 +63,12 @@ def step (_u : Unit) (ws : List String) : Unit × Ans :=
     | some tes, some d =>
       let clear := cl = "1"
       let m := vmapOfEntries tes
+      let showRows (rows : List (Nat × Int)) : String :=
+        "[" ++ " ".intercalate (rows.map (fun rd => s!"{rd.1}:{rd.2}")) ++ "]"
       let model :=
         match importBits m d clear with
         | .ok (m', ch) => s!"ok changed={ch} v=" ++ showValues m'.values
+            ++ " rows=" ++ showRows (importRowSet m d clear 16)
         | .err e => "err:" ++ e.name ++ " v=" ++ showValues m.values
         | .panic s => "panic:" ++ s
       let spec :=
@@ -74,7 +77,13 @@ def step (_u : Unit) (ws : List String) : Unit × Ans :=
           let s := r.vals.values
           let t := m.values
           let res := if clear then Spec.diff t s else Spec.union t s
-          s!"ok changed={Spec.delta t res} v=" ++ showRanges res
+          -- per row (2^20 values = 16 containers): how many bits the row gained (lost: negative)
+          let rowsOf (vs : List Nat) : List Nat := (vs.map (· / 1048576)).eraseDups
+          let cnt (vs : List Nat) (r : Nat) : Int := ((vs.filter (· / 1048576 = r)).length : Int)
+          let rs := ((rowsOf t ++ rowsOf res).eraseDups.mergeSort (· ≤ ·)).filterMap (fun r =>
+            let dl := cnt res r - cnt t r
+            if dl = 0 then none else some (r, dl))
+          s!"ok changed={Spec.delta t res} v=" ++ showRanges res ++ " rows=" ++ showRows rs
         | _ => model
       ((), ans2 model spec "imp")
     | _, _ => bad
